@@ -2278,6 +2278,10 @@ class DebugTrackFunction(JMCFunction):
 )
 class JMCRequire(JMCFunction):
     def call(self) -> str:
+        self.require(
+            PackVersionFeature.VANILLA_MACRO,
+            suggestion="JMC.require relies on 'return run' which is only available on at least pack format 16",
+        )
         is_allow_missing = self.check_bool("allowMissing")
         namespace = self.args["namespace"]
         if namespace not in Header().datapack_link:
